@@ -20,7 +20,7 @@ from sim.devices import (SimSourceError, SimSourceAbort, SimDiskFull,
                          SOURCE_ERROR_KINDS)
 from sim.gen import gen_table
 from sim.loader import load_petl
-from sim.sched import Sched, Violation, gen_schedule
+from sim.sched import Sched, Violation, gen_schedule, show_rows
 from sim.viewcase import build, solo_reference, is_items, shrink_common
 
 PROP = 'C18'
@@ -110,15 +110,28 @@ def gen_case(rng, tier, g):
         n = len(tables[si]) - 1
         extra.append(['ARM', si, rng.choice([0, 1, 2, n // 2, n, n + 1]), 1,
                       rng.choice(SOURCE_ERROR_KINDS)])
-    elif faults < 0.45:
+    elif faults < (0.65 if name == 'fromdicts-gen' else 0.45):
         extra.append(['DISKFULL', rng.choice([0, 1, 10, 40, 100, 200, 400])])
+        if rng.random() < 0.4:
+            # ... and space is freed again while the history is going on
+            extra.append(['DISKFREE'])
+        if name == 'fromdicts-gen' and nrows >= 1 and rng.random() < 0.5:
+            # one record is much larger than the others (what a torn write
+            # of it leaves behind is longer than the next record)
+            r = rng.randrange(1, nrows + 1)
+            if tables[0][r]:
+                tables[0][r][rng.randrange(len(tables[0][r]))] = \
+                    'L' * rng.choice([300, 70000])
     if rng.random() < 0.2:
         # the caching views are told to forget their cache at some moment
         for _ in range(rng.choice([1, 1, 2])):
             extra.append(['CLEARCACHE', rng.randrange(nviews),
                           rng.choice([0, 0, 1])])
+    at = 0
     for op in extra:
-        steps.insert(rng.randint(0, len(steps)), op)
+        at = rng.randint(at if op[0] == 'DISKFREE' else 0, len(steps))
+        steps.insert(at, op)
+        at += 1
     if rng.random() < 0.3:
         steps.append(['GC'])
     case = {'prop': PROP, 'stack': stack, 'tables': tables, 'steps': steps,
@@ -168,6 +181,10 @@ class _FaultyTemp(object):
         ctl = self._ctl
         if ctl.budget is not None:
             if ctl.budget < len(b):
+                # what still fits is written (a torn record), then ENOSPC
+                if ctl.budget:
+                    self._real.write(bytes(b)[:ctl.budget])
+                    devices.CTX.fire('torn-temp-write')
                 ctl.budget = 0          # full from now on
                 devices.CTX.fire('disk-full')
                 raise SimDiskFull()
@@ -309,7 +326,8 @@ def exit_child(case, td):
                 expect_fault=lambda t, ex: True)
     _KEEP.extend([w, views, sch])       # alive until the interpreter ends
     for op in case['steps']:
-        if op[0] in ('ARM', 'DISKFULL', 'GC', 'DROP', 'DROPVIEW', 'CLOSE'):
+        if op[0] in ('ARM', 'DISKFULL', 'DISKFREE', 'GC', 'DROP', 'DROPVIEW',
+                     'CLOSE'):
             continue                    # nothing is released before the end
         sch.step(op)
     if case.get('exit') == 'sys.exit':
@@ -464,8 +482,20 @@ def _history(e, case, stack, expected, td, sb, ctl, log, probes, label,
     reference to a view, iterator, row or exception survives."""
     result = None
     maxfiles = 0
-    if stack[0][0] == 'fromdicts-gen' and any(op[0] in ('ARM', 'DISKFULL')
-                                              for op in case['steps']):
+    lossy = False
+    if stack[0][0] == 'fromdicts-gen' and not any(
+            op[0] == 'ARM' for op in case['steps']) and any(
+            op[0] == 'DISKFULL' for op in case['steps']):
+        # a row taken from the one-shot generator whose spill write failed
+        # cannot be fetched again: it is lost to every pass.  Nothing else
+        # is: what a pass delivers is a subsequence of the reference, only
+        # the injected error is ever raised, and once the disk has space
+        # again every pass is complete and equal to the one before
+        lossy = True
+        tolerant = False
+        probes['fromdicts-spill-failed'] = 1
+    elif stack[0][0] == 'fromdicts-gen' and any(op[0] in ('ARM', 'DISKFULL')
+                                                for op in case['steps']):
         # a generator that raised is finished for good, and a row taken from
         # the one-shot generator whose spill write failed cannot be fetched
         # again: what later passes can still yield is not defined (and the
@@ -479,7 +509,7 @@ def _history(e, case, stack, expected, td, sb, ctl, log, probes, label,
                      fluent=bool(case.get('fluent')))
     sch = Sched(list(views), expected, log=log, items=is_items(stack),
                 expect_fault=(lambda t, ex: True) if tolerant
-                else _is_injected)
+                else _is_injected, lossy=lossy)
     del views
     try:
         try:
@@ -492,6 +522,9 @@ def _history(e, case, stack, expected, td, sb, ctl, log, probes, label,
                         log.add('step', op)
                 elif k == 'DISKFULL':
                     ctl.budget = op[1]
+                    log.add('step', op)
+                elif k == 'DISKFREE':
+                    ctl.budget = None
                     log.add('step', op)
                 else:
                     if k == 'DROPVIEW' and any(
@@ -506,8 +539,19 @@ def _history(e, case, stack, expected, td, sb, ctl, log, probes, label,
             ctl.budget = None
             for vi in range(len(sch.views)):
                 if sch.views[vi] is not None:
-                    sch.fresh(vi, label='recovery%d' % vi)
+                    t1 = sch.fresh(vi, label='recovery%d' % vi)
                     probes['recovery-pass'] = 1
+                    if lossy:
+                        t2 = sch.fresh(vi, label='recovery%d-again' % vi)
+                        if t1.failed or t2.failed or t1.rows != t2.rows:
+                            raise Violation(
+                                'fresh-pass-rows-diverge',
+                                'with space on the disk again, two passes '
+                                'in a row gave %s (%s) and %s (%s)'
+                                % (show_rows(t1.rows), t1.failed,
+                                   show_rows(t2.rows), t2.failed))
+                        del t2
+                    del t1
             maxfiles = max(maxfiles, len(_listing(sb.path)))
             # surviving iterators are complete too
             if any(not t.done and sch.views[t.vi] is None
